@@ -140,6 +140,7 @@ def build_shapes(reg):
     reg.external("txaio.resolve", ext_resolve)
     reg.external("txaio.reject", ext_reject)
     reg.external("txaio.create_future", ext_create_future)
+    reg.external("txaio.create_future_success", lambda ex, state, args, kwargs, sv: VOpaque(fresh_name("done_future")))
     reg.native_spec("allocated", sym_allocated)
 
     def sym_allocated_before(ex, state, a):
@@ -160,8 +161,16 @@ def build_shapes(reg):
         "_unsubscribe_reqs": "dict:int->sym:UnsubscribeRequest", "_register_reqs": "dict:int->sym:RegisterRequest",
         "_unregister_reqs": "dict:int->sym:UnregisterRequest", "_call_reqs": "dict:int->sym:CallRequest",
         "_subscriptions": "dict:int->seq:sym:Subscription", "_registrations": "dict:int->sym:Registration",
-        "_payload_codec": "any", "_realm": "any", "_parent": "any",
+        "_payload_codec": "none", "_realm": "any", "_parent": "any", "_request_id_gen": "obj:IdGenerator",
+        "_router_roles": "any",
     })
+    reg.shape("IdGenerator", cls="autobahn.util:IdGenerator", fields={"_next": "int"})
+    if "autobahn.util:IdGenerator.next" not in reg.contracts:
+        reg.contract("autobahn.util:IdGenerator.next", params={"self": "obj:IdGenerator"}, returns="int",
+                     requires=["0 <= self._next <= 2**53"], modifies=["self._next"],
+                     ensures=["1 <= result <= 2**53", "result == self._next",
+                              "result == old(self._next) + 1 or (old(self._next) == 2**53 and result == 1)"],
+                     verify=False, props=["C04"], spec_module="specs.wamp")
 
 
 MESSAGE_CLASSES = ["Hello", "Welcome", "Abort", "Challenge", "Authenticate", "Goodbye", "Error", "Publish", "Published",
